@@ -11,6 +11,7 @@ model = subprocess.run(['/verif/lean/.lake/build/bin/amdriver'],input=impl,stdou
 open('/tmp/model.txt','w').write(model)
 ic,st=m.parse_trace(impl); mc,_=m.parse_trace(model)
 dis,orc,n=m.compare('X',ic,mc,{})
+orc=[dict(case=ci,what=o) for ci,c in enumerate(ic) for it in c['items'] for o in it[2]]
 print('outputs',n,'disagreements',len(dis),'oracle',len(orc))
 print(st)
 for d in dis[:int(sys.argv[5]) if len(sys.argv)>5 else 5]:
